@@ -635,3 +635,307 @@ Proof.
       * exists (length (snd (spec_lines (hc_conc c) rs0 ls1)) + k)%nat. now apply dsim_firstn_app.
       * intros Hc. apply dsim_app; [exact S1| exact (I2 Hc)].
 Qed.
+
+(* ================================================================== C47 statements *)
+Lemma dsim_sym a b : dsim a b -> dsim b a.
+Proof.
+  induction 1 as [|x y a b H _ IH]; constructor; [|exact IH].
+  destruct H as [H1 H2]. split; [now symmetry|]. destruct (snd x), (snd y); try tauto. now symmetry.
+Qed.
+
+Lemma dsim_trans a b c : dsim a b -> dsim b c -> dsim a c.
+Proof.
+  intros H. revert c. induction H as [|x y a b H _ IH]; intros c Hc; inversion Hc as [|y' z b' c' H' Hc']; subst; constructor.
+  - destruct H as [H1 H2], H' as [H3 H4]. split; [congruence|].
+    destruct (snd x), (snd y), (snd z); try tauto. congruence.
+  - now apply IH.
+Qed.
+
+Lemma fresh_Rep conc st : fresh_st (h_reqs st) st -> Rep conc (h_reqs st) [] st.
+Proof. intros F. now apply Rep_fresh. Qed.
+
+(* T1: for every way of cutting the helper's byte stream into reads the callbacks are those of the per-line
+   specification (up to blanks at the ends of the text): all of them if the helper was not killed, else a prefix *)
+Theorem dispatch_is_spec c st chunks :
+  fresh_st (h_reqs st) st -> wf (hc_conc c) (concat chunks) ->
+  (exists k, dsim (snd (hreads c st chunks)) (firstn k (spec_stream (hc_conc c) (h_reqs st) (concat chunks)))) /\
+  (h_closed (fst (hreads c st chunks)) = false ->
+   dsim (snd (hreads c st chunks)) (spec_stream (hc_conc c) (h_reqs st) (concat chunks))).
+Proof.
+  intros F W. exact (frag_main c chunks (h_reqs st) [] st (fresh_Rep _ st F) eq_refl W).
+Qed.
+
+(* T1': two fragmentations of the same stream *)
+Theorem fragmentation_independent c st chunks1 chunks2 :
+  fresh_st (h_reqs st) st -> concat chunks1 = concat chunks2 -> wf (hc_conc c) (concat chunks1) ->
+  h_closed (fst (hreads c st chunks1)) = false -> h_closed (fst (hreads c st chunks2)) = false ->
+  dsim (snd (hreads c st chunks1)) (snd (hreads c st chunks2)).
+Proof.
+  intros F E W C1 C2.
+  destruct (dispatch_is_spec c st chunks1 F W) as [_ H1].
+  rewrite E in W. destruct (dispatch_is_spec c st chunks2 F W) as [_ H2].
+  rewrite E in H1. exact (dsim_trans _ _ _ (H1 C1) (dsim_sym _ _ (H2 C2))).
+Qed.
+
+Lemma pop_id_split i rs t rs' :
+  pop_id i rs = Some (t, rs') -> exists a b, rs = a ++ (i, t) :: b /\ rs' = a ++ b.
+Proof.
+  revert t rs'. induction rs as [|[j u] rs IH]; intros t rs'; cbn [pop_id]; [discriminate|].
+  destruct (j =? i) eqn:E.
+  - intros H. injection H as <- <-. apply N.eqb_eq in E. subst j. exists [], rs. split; reflexivity.
+  - destruct (pop_id i rs) as [[t' r']|]; [|discriminate]. intros H. injection H as <- <-.
+    destruct (IH t' r' eq_refl) as (a & b & -> & ->). exists ((j, u) :: a), b. split; reflexivity.
+Qed.
+
+Lemma pop_id_none i rs : (forall t, ~ In (i, t) rs) -> pop_id i rs = None.
+Proof.
+  induction rs as [|[j u] rs IH]; intros H; cbn [pop_id]; [reflexivity|].
+  destruct (j =? i) eqn:E.
+  - apply N.eqb_eq in E. subst j. exfalso. apply (H u). now left.
+  - rewrite IH; [reflexivity|]. intros t Ht. apply (H t). now right.
+Qed.
+
+Lemma pop_request_split conc i rs t rs' :
+  pop_request conc i rs = Some (t, rs') ->
+  exists a j b, rs = a ++ (j, t) :: b /\ rs' = a ++ b /\ (conc = true -> (0 <= i)%Z /\ j = Z.to_N i).
+Proof.
+  unfold pop_request. destruct conc.
+  - destruct (i <? 0)%Z eqn:E; [discriminate|]. intros H.
+    destruct (pop_id_split _ _ _ _ H) as (a & b & -> & ->). exists a, (Z.to_N i), b.
+    repeat split; try reflexivity. lia.
+  - destruct rs as [|[j u] rs]; [discriminate|]. intros H. injection H as <- <-.
+    exists [], j, rs. repeat split; try reflexivity; discriminate.
+Qed.
+
+(* the number at the start of a (complete) line *)
+Definition line_number (l : bytes) : Z := fst (strtol (strip_cr l)).
+
+Lemma spec_lines_sound rs ls tag d :
+  In (tag, d) (snd (spec_lines true rs ls)) ->
+  exists l, In l ls /\ (0 <= line_number l)%Z /\ In (Z.to_N (line_number l), tag) rs.
+Proof.
+  revert rs. induction ls as [|l ls IH]; intros rs; cbn [spec_lines snd]; [intros []|].
+  destruct (spec_line true rs l) as [rs1 o1] eqn:E1.
+  destruct (spec_lines true rs1 ls) as [rs2 o2] eqn:E2. cbn [snd]. intros H.
+  unfold spec_line in E1. destruct (strtol (strip_cr l)) as [i e] eqn:Es.
+  destruct (pop_request true i rs) as [[t r']|] eqn:P.
+  - injection E1 as <- <-. destruct (pop_request_split _ _ _ _ _ P) as (a & j & b & -> & -> & Hj).
+    destruct (Hj eq_refl) as [Hi ->].
+    destruct H as [H|H].
+    + injection H as <- _. exists l. split; [now left|]. unfold line_number. rewrite Es. cbn [fst].
+      split; [exact Hi|]. apply in_or_app. right. now left.
+    + specialize (IH (a ++ b)). rewrite E2 in IH. destruct (IH H) as (l' & L1 & L2 & L3).
+      exists l'. split; [now right|]. split; [exact L2|].
+      apply in_app_or in L3. apply in_or_app. destruct L3; [now left| right; now right].
+  - injection E1 as <- <-. cbn [app] in H. specialize (IH rs). rewrite E2 in IH.
+    destruct (IH H) as (l' & L1 & L2 & L3). exists l'. split; [now right|]. tauto.
+Qed.
+
+Lemma dsim_In a b t d : dsim a b -> In (t, d) a -> exists d', In (t, d') b.
+Proof.
+  induction 1 as [|x y a b H _ IH]; [intros []|]. intros [Hx|Hx].
+  - subst x. destruct y as [t' d']. destruct H as [H _]. cbn in H. subst t'. exists d'. now left.
+  - destruct (IH Hx) as (d' & Hd). exists d'. now right.
+Qed.
+
+Lemma In_firstn {A} k (l : list A) x : In x (firstn k l) -> In x l.
+Proof.
+  revert l. induction k as [|k IH]; intros [|y l]; cbn [firstn In]; try tauto.
+  intros [H|H]; [now left| right; auto].
+Qed.
+
+(* T2: whoever is called back was waiting on the channel whose number starts that reply line *)
+Theorem reply_applied_to_its_channel c st chunks tag d :
+  hc_conc c = true -> fresh_st (h_reqs st) st -> wf true (concat chunks) ->
+  In (tag, d) (snd (hreads c st chunks)) ->
+  exists l, In l (fst (split_lf (concat chunks))) /\ (0 <= line_number l)%Z /\
+            In (Z.to_N (line_number l), tag) (h_reqs st).
+Proof.
+  intros Ec F W H. rewrite <- Ec in W. destruct (dispatch_is_spec c st chunks F W) as [(k & Hk) _].
+  destruct (dsim_In _ _ _ _ Hk H) as (d' & Hd). apply In_firstn in Hd.
+  unfold spec_stream in Hd. rewrite Ec in Hd. exact (spec_lines_sound _ _ _ _ Hd).
+Qed.
+
+Lemma spec_lines_none conc rs ls :
+  (forall l, In l ls -> pop_request conc (if conc then line_number l else 0%Z) rs = None) ->
+  spec_lines conc rs ls = (rs, []).
+Proof.
+  induction ls as [|l ls IH]; intros H; cbn [spec_lines]; [reflexivity|].
+  assert (E : spec_line conc rs l = (rs, [])).
+  { unfold spec_line. specialize (H l (or_introl eq_refl)). unfold line_number in H.
+    destruct conc.
+    - destruct (strtol (strip_cr l)) as [i e]. cbn [fst] in H. now rewrite H.
+    - now rewrite H. }
+  rewrite E, IH; [reflexivity|]. intros l' Hl. apply H. now right.
+Qed.
+
+(* T3: lines whose number is not the id of a waiting request (unknown, negative) call nobody back *)
+Theorem unknown_channel_dropped c st chunks :
+  hc_conc c = true -> fresh_st (h_reqs st) st -> wf true (concat chunks) ->
+  (forall l, In l (fst (split_lf (concat chunks))) ->
+             (line_number l < 0)%Z \/ forall tag, ~ In (Z.to_N (line_number l), tag) (h_reqs st)) ->
+  snd (hreads c st chunks) = [].
+Proof.
+  intros Ec F W H. rewrite <- Ec in W. destruct (dispatch_is_spec c st chunks F W) as [(k & Hk) _].
+  unfold spec_stream in Hk. rewrite Ec in Hk. rewrite spec_lines_none in Hk.
+  - cbn [snd] in Hk. destruct k; cbn [firstn] in Hk; now inversion Hk.
+  - intros l Hl. unfold pop_request. destruct (H l Hl) as [Hn|Hn].
+    + apply Z.ltb_lt in Hn. now rewrite Hn.
+    + destruct (line_number l <? 0)%Z; [reflexivity|]. now apply pop_id_none.
+Qed.
+
+(* ================================================================== non-concurrent helpers: FIFO *)
+(* the transactions that still wait for an answer, in the order in which they asked *)
+Definition order (st : hstate) : list N :=
+  match h_cur st with Some (t, _) => [t] | None => [] end ++ map snd (h_reqs st) ++ h_queue st.
+
+Lemma kick_order lim q st :
+  h_cur (kick lim q st) = h_cur st /\
+  map snd (h_reqs (kick lim q st)) ++ h_queue (kick lim q st) = map snd (h_reqs st) ++ q /\
+  h_closed (kick lim q st) = h_closed st.
+Proof.
+  revert st. induction q as [|t q IH]; intros st; cbn [kick].
+  - cbn. now rewrite app_nil_r.
+  - destruct (h_pending st <? lim).
+    + destruct (IH (hdispatch st t)) as (I1 & I2 & I3). rewrite I1, I2, I3. unfold hdispatch. cbn.
+      rewrite map_app. cbn. now rewrite <- app_assoc.
+    + cbn. tauto.
+Qed.
+
+Lemma order_kick lim st : order (kick lim (h_queue st) st) = order st.
+Proof.
+  unfold order. destruct (kick_order lim (h_queue st) st) as (I1 & I2 & _). now rewrite I1, I2.
+Qed.
+
+Definition tags (ds : list disp) : list N := map fst ds.
+
+Lemma order_kick_cur lim st t acc :
+  h_cur st = Some (t, acc) -> order st = t :: order (kick lim (h_queue st) (set_cur st None)).
+Proof.
+  intros Hc. change (h_queue st) with (h_queue (set_cur st None)). rewrite order_kick.
+  unfold order, set_cur. cbn. now rewrite Hc.
+Qed.
+
+Lemma process_order c eom st seg st' ds :
+  hc_conc c = false -> process c eom st seg = Some (st', ds) -> order st = tags ds ++ order st'.
+Proof.
+  intros Ec. unfold process. rewrite Ec. cbn [andb].
+  assert (D : forall s text s' o, deliver c s text eom = (s', o) -> order s = tags o ++ order s').
+  { intros s text s' o. unfold deliver. destruct (h_cur s) as [[t acc]|] eqn:Hc.
+    - destruct eom; intros H; injection H as <- <-.
+      + cbn [tags map fst app]. exact (order_kick_cur (hc_limit c) s t acc Hc).
+      + unfold order, set_cur. cbn. now rewrite Hc.
+    - intros H. injection H as <- <-. cbn [tags map app]. symmetry. apply order_kick. }
+  assert (C : forall s, order (clear_ign eom s) = order s).
+  { intros s. unfold clear_ign. destruct (eom && h_ign s); reflexivity. }
+  destruct (negb (h_ign st) && match h_cur st with None => true | Some _ => false end) eqn:Ef.
+  - apply andb_prop in Ef as [_ Ef]. destruct (h_cur st) eqn:Hc; [discriminate|].
+    destruct (pop_request false 0%Z (h_reqs st)) as [[tag rs]|] eqn:P.
+    + match goal with |- context [deliver c ?s0 ?tx eom] => destruct (deliver c s0 tx eom) as [s2 o2] eqn:Ed end. intros H. injection H as <- <-.
+      rewrite C, <- (D _ _ _ _ Ed). unfold order. cbn. rewrite Hc.
+      unfold pop_request in P. destruct (h_reqs st) as [|[j u] r]; [discriminate|]. injection P as <- <-. reflexivity.
+    + match goal with |- context [deliver c ?s0 ?tx eom] => destruct (deliver c s0 tx eom) as [s2 o2] eqn:Ed end. intros H. injection H as <- <-.
+      rewrite C, <- (D _ _ _ _ Ed). unfold order. cbn. now rewrite Hc.
+  - match goal with |- context [deliver c ?s0 ?tx eom] => destruct (deliver c s0 tx eom) as [s2 o2] eqn:Ed end.
+    intros H. injection H as <- <-. rewrite C. exact (D _ _ _ _ Ed).
+Qed.
+
+Lemma process_lines_order c st ls st' ds :
+  hc_conc c = false -> process_lines c st ls = (st', ds) -> order st = tags ds ++ order st'.
+Proof.
+  intros Ec. revert st st' ds. induction ls as [|l ls IH]; intros st st' ds; cbn [process_lines].
+  - intros H. injection H as <- <-. reflexivity.
+  - destruct (process c true st l) as [[st1 o1]|] eqn:E1.
+    + destruct (process_lines c st1 ls) as [st2 o2] eqn:E2. intros H. injection H as <- <-.
+      rewrite (process_order c true st l st1 o1 Ec E1), (IH st1 st2 o2 E2).
+      unfold tags. now rewrite map_app, app_assoc.
+    + intros H. injection H as <- <-. reflexivity.
+Qed.
+
+Lemma hread_order c st chunk :
+  hc_conc c = false -> order st = tags (snd (hread c st chunk)) ++ order (fst (hread c st chunk)).
+Proof.
+  intros Ec. unfold hread. destruct (h_closed st); [reflexivity|].
+  destruct (h_pending st =? 0); [reflexivity|].
+  unfold hread_body. destruct (split_lf (h_rbuf st ++ chunk)) as [ls tl]. unfold body2.
+  destruct (process_lines c (set_rbuf st []) ls) as [st1 o1] eqn:E1.
+  pose proof (process_lines_order c _ ls st1 o1 Ec E1) as H1.
+  change (order (set_rbuf st [])) with (order st) in H1.
+  destruct tl as [|t0 t1]; [exact H1|].
+  destruct (process c false st1 (t0 :: t1)) as [[st2 o2]|] eqn:E2; cbn [fst snd].
+  - rewrite H1, (process_order c false st1 _ st2 o2 Ec E2). unfold tags. now rewrite map_app, app_assoc.
+  - exact H1.
+Qed.
+
+Lemma hsubmit_order c st t : order (hsubmit c st t) = order st ++ [t].
+Proof.
+  unfold hsubmit. destruct (h_queue st) as [|q0 q] eqn:Eq.
+  - destruct (h_pending st <? hc_limit c); unfold order, hdispatch; cbn; rewrite ?Eq, ?map_app; cbn;
+      rewrite ?app_nil_r, <- ?app_assoc; reflexivity.
+  - unfold order. cbn [h_cur h_reqs h_queue]. rewrite Eq. now rewrite <- !app_assoc.
+Qed.
+
+Fixpoint submitted (ops : list hop) : list N :=
+  match ops with
+  | [] => []
+  | HSubmit t :: r => t :: submitted r
+  | _ :: r => submitted r
+  end.
+
+(* T4: a helper without channels answers the transactions in the order in which they asked, whatever the reads
+   look like and including the transactions that had to wait in squid's own queue *)
+Theorem nonconcurrent_fifo c ops : forall st,
+  hc_conc c = false -> (forall op, In op ops -> op <> HEof) ->
+  order st ++ submitted ops = tags (snd (hrun c st ops)) ++ order (fst (hrun c st ops)).
+Proof.
+  induction ops as [|op ops IH]; intros st Ec Hn; cbn [hrun submitted].
+  - cbn [snd fst tags map app]. now rewrite app_nil_r.
+  - assert (Hn' : forall o, In o ops -> o <> HEof) by (intros o Ho; apply Hn; now right).
+    destruct op as [t|ch|]; cbn [hstep].
+    + specialize (IH (hsubmit c st t) Ec Hn'). destruct (hrun c (hsubmit c st t) ops) as [st2 o2]. cbn [fst snd app] in *.
+      rewrite hsubmit_order, <- app_assoc in IH. exact IH.
+    + pose proof (hread_order c st ch Ec) as H1. destruct (hread c st ch) as [st1 o1]. cbn [fst snd] in *.
+      specialize (IH st1 Ec Hn'). destruct (hrun c st1 ops) as [st2 o2]. cbn [fst snd] in *.
+      rewrite H1. unfold tags in *. rewrite map_app, <- !app_assoc. f_equal. exact IH.
+    + exfalso. apply (Hn HEof); [now left| reflexivity].
+Qed.
+
+(* every callback of a non-concurrent helper carries a reply text (never the "dropped" marker) *)
+
+(* ================================================================== witnesses for the reader's leniencies *)
+Definition cfg16 : hcfg := mkHC true 16.
+Definition two_waiting : hstate := submit_all cfg16 h_init 2 1.       (* tags 1, 2 on channels 1, 2 *)
+Definition bytes_of (l : list nat) : bytes := map N.of_nat l.
+
+(* "4294967298 X\n" : applied to the request on channel 2 *)
+Lemma channel_number_wraps :
+  snd (hreads cfg16 two_waiting [bytes_of [52;50;57;52;57;54;55;50;57;56;32;88;10]%nat]) = [(2, Some [88])] /\
+  line_number (bytes_of [52;50;57;52;57;54;55;50;57;56;32;88]%nat) = 2%Z.
+Proof. vm_compute. split; reflexivity. Qed.
+
+(* "1 OK\r\n" in one read, and cut between CR and LF: different text, different result code *)
+Lemma crlf_cut_changes_text :
+  let one := snd (hreads cfg16 two_waiting [bytes_of [49;32;79;75;13;10]%nat]) in
+  let two := snd (hreads cfg16 two_waiting [bytes_of [49;32;79;75;13]%nat; bytes_of [10]%nat]) in
+  one = [(1, Some (bytes_of [79;75]%nat))] /\ two = [(1, Some (bytes_of [79;75;13]%nat))] /\
+  fst (fst (finalize (bytes_of [79;75]%nat))) = ROkay /\ fst (fst (finalize (bytes_of [79;75;13]%nat))) = RUnknown.
+Proof. vm_compute. repeat split; reflexivity. Qed.
+
+(* " 1 OK\n": in one read it is channel 1's reply; cut after the blank it is read as channel 0 and dropped *)
+Lemma leading_blank_cut_changes_channel :
+  snd (hreads cfg16 two_waiting [bytes_of [32;49;32;79;75;10]%nat]) = [(1, Some (bytes_of [79;75]%nat))] /\
+  snd (hreads cfg16 two_waiting [bytes_of [32]%nat; bytes_of [49;32;79;75;10]%nat]) = [].
+Proof. vm_compute. split; reflexivity. Qed.
+
+(* non-vacuity of the hypotheses used above *)
+Lemma two_waiting_fresh : fresh_st (h_reqs two_waiting) two_waiting /\ h_reqs two_waiting = [(1, 1); (2, 2)].
+Proof. vm_compute. repeat split; reflexivity. Qed.
+
+Lemma example_stream_wf :
+  wf true (concat [bytes_of [50;32;79]%nat; bytes_of [75;10;49]%nat; bytes_of [32;69;82;82;13;10]%nat]) /\
+  snd (hreads cfg16 two_waiting [bytes_of [50;32;79]%nat; bytes_of [75;10;49]%nat; bytes_of [32;69;82;82;13;10]%nat])
+  = [(2, Some (bytes_of [79;75]%nat)); (1, Some (bytes_of [69;82;82]%nat))].
+Proof.
+  split; [|vm_compute; reflexivity].
+  intros _. vm_compute. repeat constructor.
+Qed.
